@@ -1108,3 +1108,50 @@ def _walk(t):
         yield t
         for x in t:
             yield from _walk(x)
+
+
+def invariant_rule(ctx, w, S, R, rule):
+    """Every command handler and the resize entry preserve the state invariant (evaluated, hinterp.invariant_preservation); verdict cached per fact set."""
+    from rules import hinterp
+    ctx.rule(rule, "every command handler (all parameter classes, margins, origin mode, cursor positions incl. wrap-pending, on a wide and a tall small screen) and the resize entry, evaluated with the buffer replaced by "
+                   "its contract, lead from states satisfying the state invariant to states satisfying it: cursor row < rows, col <= cols with col == cols exactly when wrap-pending, "
+                   "0 <= top < bottom <= rows-1, saved cursors inside the screen, active character set index in range")
+    c = getattr(w.facts, "_inv_verdict", None)
+    if c is None:
+        try:
+            c = hinterp.invariant_preservation(w, S, R, thorough=getattr(ctx, "tier", "") == "thorough")
+        except Exception as ex:
+            c = ([("evaluation", "cannot evaluate the handlers: %r" % (ex,))], 0, {})
+        w.facts._inv_verdict = c
+    bad, n, skipped = c
+    for key, text in bad:
+        ctx.violation(rule, key, text, loc=None)
+    evaluated = len([v for v in w.anchors["function_variants"] if v not in skipped])
+    if not bad:
+        ctx.ok(rule, "all", {"evaluations": n, "handlers_evaluated": evaluated, "not_evaluated": {k: v for k, v in sorted(skipped.items())}})
+    ctx.rule_counts[rule] = n
+    if evaluated < 32 or n < 5000:
+        ctx.violation(rule, "floor", "only %d handlers / %d states could be evaluated (39 of 50 handlers / 21400 states on the reference tree; floors 32 / 5000): %s" % (evaluated, n, dict(list(skipped.items())[:6])))
+
+
+def mode_rule(ctx, w, S, R, rule):
+    """Per-mode decision table of SM / RM / DECSET / DECRST (hinterp.mode_semantics); verdict cached per fact set."""
+    from rules import hinterp
+    ctx.rule(rule, "SM / RM / DECSET / DECRST evaluated one mode at a time (both screens, both prior values, cursor mid-screen and wrap-pending, origin mode on / off inside a partial region): each mode changes exactly "
+                   "the components its specification names, with the specified values - DECOM always homes, DECAWM / IRM / LNM / DECCKM / DECTCEM touch only their flag, 1048 saves / restores and never switches "
+                   "screens, 47 / 1047 / 1049 switch only from the other screen, exchange the two saved contexts and the two buffers, and enter a FRESH alternate buffer")
+    c = getattr(w.facts, "_mode_verdict", None)
+    if c is None:
+        try:
+            c = hinterp.mode_semantics(w, S, R)
+        except Exception as ex:
+            c = ([("evaluation", "cannot evaluate the mode handlers: %r" % (ex,))], 0)
+        w.facts._mode_verdict = c
+    bad, n = c
+    for key, text in bad[:8]:
+        ctx.violation(rule, key, text, loc=None)
+    if not bad:
+        ctx.ok(rule, "all", {"evaluations": n})
+    ctx.rule_counts[rule] = n
+    if n < 200 and not bad:
+        ctx.violation(rule, "floor", "only %d mode evaluations (288 on the reference tree, floor 200)" % n)
